@@ -1,8 +1,8 @@
 (* C05 -- Policy iteration: evaluation is accurate and termination means policy stability. *)
 From Coq Require Import QArith Qabs List Arith ZArith Bool.
 From MdpaxV Require Import Model.ListUtil Model.QFun Model.MDP Model.Bellman Model.Batching Model.Kernel Model.Solvers
-     Model.KernelOps Proofs.ContractionP Proofs.LoopP Proofs.C01P Proofs.C01RunP Proofs.C02P Proofs.C05P Proofs.GenKernelP Proofs.GenPiEvalP.
-From MdpaxGen Require Import GenKernel GenPiEval GenThreshold.
+     Model.KernelOps Proofs.ContractionP Proofs.LoopP Proofs.C01P Proofs.C01RunP Proofs.C02P Proofs.C05P Proofs.GenKernelP Proofs.GenPiEvalP Proofs.GenPiStepP Model.PolicyOps.
+From MdpaxGen Require Import GenKernel GenPiEval GenThreshold GenPiStep.
 Import ListNotations.
 Open Scope Q_scope.
 
@@ -24,6 +24,14 @@ Print Assumptions generated_evaluation_loop_is_the_modelled_loop.
 Theorem generated_evaluation_start : forall reset V0 vals, gen_eval_start reset V0 vals None = (if reset then V0 else vals).
 Proof. exact gen_eval_start_eq. Qed.
 Print Assumptions generated_evaluation_start.
+
+(* "stops before the limit only when an improvement step changes no state's action vector in ANY component": the changed-state
+   count GENERATED from _iteration_step (operator by operator: !=, any along axis 1, sum) is zero exactly when the new policy
+   equals the old one as a matrix of action vectors - for every number of states and every action dimension *)
+Theorem generated_changed_count_zero_iff_policy_unchanged : forall new old,
+  Forall2 (fun a b => length a = length b) new old -> (gen_pi_n_changed new old = 0%nat <-> new = old).
+Proof. exact gen_pi_n_changed_zero_iff. Qed.
+Print Assumptions generated_changed_count_zero_iff_policy_unchanged.
 
 (* one evaluation step, for EVERY layout and whatever the padded rows look up *)
 Theorem eval_step_spec : forall (M : mdp) (g : Q) (V : list Q) (n mb d : Z),
